@@ -100,7 +100,14 @@ B2_ALPHA = [["rename", "e", "m"], ["rename", "e/f", "f"], ["write", "e/f/g"], ["
 
 
 def run_job(job):
-    return run_explore(DRIVER, job)
+    out = run_explore(DRIVER, job)
+    # how soon the engine gives up waiting and writes on the origin side is part of what that finding is (the unchanged tree
+    # does it after five deferrals): the signature carries the length class of the shortest explored execution showing it
+    for v in out["violations"]:
+        if v["kind"] == "origin-written":
+            n = v.get("min_steps", 99)
+            v["sig"] += "@steps<=%d" % (6 if n <= 6 else 9 if n <= 9 else 13 if n <= 13 else 99)
+    return out
 
 
 def main(tier):
